@@ -112,6 +112,9 @@ def _r3(model, res):
     def arr2():
         return ListV([ListV([Sym('int', 'e%d%d' % (i, j)) for j in range(3)]) for i in range(2)])
 
+    def arr2one():
+        return ListV([ListV([Sym('int', 'e0%d' % j) for j in range(3)])])
+
     def arr1():
         return ListV([Sym('int', 'v%d' % j) for j in range(3)])
 
@@ -123,7 +126,7 @@ def _r3(model, res):
         return repr(v)
     OM = 'omitted'
     n = 0
-    for shape, mk, rows, cols in (('2x3', arr2, 2, 3), ('1x3', arr1, 1, 3)):
+    for shape, mk, rows, cols in (('2x3', arr2, 2, 3), ('two-dimensional 1x3', arr2one, 1, 3), ('1x3', arr1, 1, 3)):
         for r in (OM, 0, 1, 2, 3):
             for cc in (OM, 0, 1, 2, 3, 4):
                 if r == OM and cc == OM:
@@ -140,11 +143,11 @@ def _r3(model, res):
                     res.ob('R3', 'INDEX', {'shape': shape, 'row': r, 'col': cc}, True, 'undecided: %s' % e)
                     continue
                 n += 1
-                if shape == '2x3':
-                    full = [['e%d%d' % (i, j) for j in range(3)] for i in range(2)]
+                if mk is not arr1:
+                    full = [['e%d%d' % (i, j) for j in range(cols)] for i in range(rows)]
                     rr = None if r in (OM, 0) else r
                     c2 = None if cc in (OM, 0) else cc
-                    if (rr is not None and rr > 2) or (c2 is not None and c2 > 3):
+                    if (rr is not None and rr > rows) or (c2 is not None and c2 > cols):
                         want = 'error'
                     elif rr is None and c2 is None:
                         want = full
@@ -183,6 +186,28 @@ def _r3(model, res):
     res.soft_floor('INDEX addressing cases on instance shapes', n, 30)
     # CHOOSE
     m2, f2 = model.registered('CHOOSE')
+    # the values are chosen whole, whatever they are: an array among them is one value, not several
+    for i in (1, 2, 3, 4):
+        def mkc(i=i):
+            return [Const(i), ListV([Sym('int', 'a0'), Sym('int', 'a1')]), Sym('str', 'v2'), ListV([ListV([Sym('int', 'b00')]), ListV([Sym('int', 'b10')])])]
+        want = {1: ['a0', 'a1'], 2: 'v2', 3: [['b00'], ['b10']], 4: 'error'}[i]
+        try:
+            outs = _runs(model, 'CHOOSE', mkc)
+        except Unmodelled as e:
+            res.ob('R3', 'CHOOSE', {'index': i, 'values': 'array, text, 2-D array'}, True, 'undecided: %s' % e)
+            continue
+        for o in outs:
+            if o.imprecise:
+                continue
+            if want == 'error':
+                ok = o.kind == 'raise' or (o.kind == 'return' and o.value.tag == 'err')
+            else:
+                ok = o.kind == 'return' and names(o.value) == want
+            res.ob('R3', 'CHOOSE', {'index': i, 'values': 'array, text, 2-D array', 'expected': want}, ok, repr(o.value))
+            if not ok:
+                res.violation('R3', 'function:CHOOSE:whole-values', m2.where(f2),
+                              'CHOOSE(%d, {a0,a1}, v2, {b00;b10}) must give %s (each value is chosen whole); got %r' % (i, want, o.value),
+                              case={'index': i}, func=f2.name)
     for i in (-1, 0, 1, 2, 3, 4):
         outs = _runs(model, 'CHOOSE', lambda i=i: [Const(i), Sym('str', 'v1'), Sym('str', 'v2'), Sym('str', 'v3')])
         for o in outs:
